@@ -77,6 +77,11 @@ def _make_function(family: str, p: list[float]):
         m = 7 + int(abs(k) * 20)
         return lambda x: (-math.inf if x == c else
                           (math.nan, math.inf, -math.inf)[_bits(x) % 3] if (_bits(x) >> 2) % m == 0 else math.cos(3 * x) + 2)
+    if family == "wiggly":             # refinement never resolves it: forced splits everywhere
+        w = 10.0 ** (4 + 2 * abs(k))
+        return lambda x: math.sin(w * x * x) + 2
+    if family == "noisy":              # deterministic pseudo-noise on top of a smooth function
+        return lambda x: math.cos(x) + 0.3 * ((_bits(x) * 2654435761 >> 7) % 1000) / 1000.0
     if family == "isolated_dev":       # 1 except at isolated abscissae that only deeper rules sample
         m = 3 + int(abs(k) * 12)
         return lambda x: 2.0 if (_bits(x) >> 3) % m == 0 else 1.0
@@ -92,7 +97,7 @@ def _make_function(family: str, p: list[float]):
 
 FAMILIES = ["smooth_exp", "smooth_sin", "poly", "const", "peaked", "step", "kink", "sqrt_sing", "inv_sqrt",
             "nonfinite_nodes", "isolated_dev", "divergent", "divergent_abs", "divergent_pow",
-            "log_sing", "neg_inv_sqrt", "neginf_nodes", "mixed_nonfinite"]
+            "log_sing", "neg_inv_sqrt", "neginf_nodes", "mixed_nonfinite", "wiggly", "noisy"]
 BOUNDS = [(0, 1), (-1, 1), (0.0, 3.0), (-2.5, 7.25), (1e-3, 1e3), (-1, 0), (0, 1e-6), (3, 4)]
 
 
@@ -178,6 +183,7 @@ def _patch():
         self.ivals.log = log
         depth_before = {iv: iv.depth for iv in self.ivals}
         queued = bool(self.priority_split)
+        prio_before = list(self.priority_split)
         try:
             r = fs0(self)
         except BaseException:
@@ -224,6 +230,8 @@ def _patch():
             maxrm = tail[0][1]
         if pick is None:
             raise InstrumentationError("cannot identify the interval _fill_stack picked")
+        if maxrm is not None and maxrm is not pick and maxrm in prio_before:
+            rec.evict_queued.append(len(rec.steps))     # the max_ivals rule evicted an interval queued for a forced split
         rec.choices.append({"pick": rec.ids[pick], "minsep": minsep, "verdicts": sink,
                             "maxrm": None if maxrm is None else rec.ids[maxrm], "kind": kind})
         return r
@@ -287,6 +295,7 @@ class Recorder:
         self.sink = []
         self.choices = []
         self.ncomplete = 0
+        self.evict_queued = []   # indices of the operations during which a queued interval was evicted
         self.steps = []          # dicts: op, out, err, site, verdicts/choices, obs
         self.dead = False
 
@@ -345,7 +354,7 @@ class Recorder:
 
 # ----------------------------------------------------------------------
 # schedules: a schedule is a generator of abstract actions executed by `drive`
-def drive_schedule(rec: Recorder, rng, mode: str, max_tells: int, max_ops: int, foreign_rate=0.03, ntasks=None):
+def drive_schedule(rec: Recorder, rng, mode: str, max_tells: int, max_ops: int, foreign_rate=0.03, ntasks=None, burst=0.0):
     """Drive the learner like a parallel runner would.  Returns when the op
     budget is used up, the learner is done, or an error ended the run."""
     l = rec.l
@@ -356,7 +365,9 @@ def drive_schedule(rec: Recorder, rng, mode: str, max_tells: int, max_ops: int, 
     lo, hi = rec.cfg["bounds"]
     while len(rec.steps) < max_ops and tells < max_tells and not rec.dead:
         # --- ask
-        if mode == "runner":
+        if mode == "trickle":      # one request per free task, one value delivered at a time
+            n = 1 if len(inflight) < ntasks else 0
+        elif mode == "runner":
             n = max(0, ntasks - len(inflight))
             if rng.random() < 0.1 and foreign_rate:
                 n = rng.randint(1, 50)
@@ -379,11 +390,27 @@ def drive_schedule(rec: Recorder, rng, mode: str, max_tells: int, max_ops: int, 
                 break
         # --- occasionally a value for an abscissa the learner never asked for
         if rng.random() < foreign_rate:
-            x = lo + (hi - lo) * rng.random() if rng.random() < 0.7 else hi + 1.0 + rng.random()
+            r = rng.random()
+            if r < 0.45:
+                x = lo + (hi - lo) * rng.random()                  # inside the range, never a node
+            elif r < 0.8 and l.ivals:
+                # an abscissa that WILL be a node once this interval is split (inner node of a child's first rule)
+                from adaptive.learner import integrator_coeffs as coeff
+                iv = rng.choice(sorted(l.ivals, key=lambda i: (i.a, i.b)))
+                m = (iv.a + iv.b) / 2
+                ca, cb = (iv.a, m) if rng.random() < 0.5 else (m, iv.b)
+                x = float(((ca + cb) / 2 + (cb - ca) * coeff.xi[0] / 2)[rng.choice([1, 3])])
+            else:
+                x = hi + 1.0 + rng.random()                        # outside the range
             if x not in l.x_mapping:
                 rec.tell(x)
         # --- deliver
-        if mode == "runner":
+        if mode == "trickle":
+            k = 1 if len(inflight) >= ntasks else 0
+            rng.shuffle(inflight)
+            if k and rng.random() < burst:      # now and then every value in flight arrives before the next request
+                k = len(inflight)
+        elif mode == "runner":
             k = rng.randint(1, max(1, min(len(inflight), ntasks)))
             rng.shuffle(inflight)
         elif mode == "batch":
@@ -421,7 +448,7 @@ def drive_schedule(rec: Recorder, rng, mode: str, max_tells: int, max_ops: int, 
     return rec
 
 
-MODES = ["runner", "batch", "deep", "holdback"]
+MODES = ["runner", "batch", "deep", "holdback"]      # "trickle" is used by the stress stream only
 
 
 def drive_concrete(rec: Recorder, ops):
